@@ -34,6 +34,7 @@ package redblacktree
 //@ pred OrderInv(t) := t.Comparator != nil && SWO(t.Comparator, argof(t.Comparator, 0))
 //@     && (forall i, j :: 0 <= i && i < j && j < t.size ==> t.Comparator(t.nodes[i].Key, t.nodes[j].Key) < 0)
 //@     && (forall k like argof(t.Comparator, 0), i :: 0 <= i && i < t.size && t.Comparator(k, t.nodes[i].Key) == 0 ==> t.rank[k] == i)
+//@     && (forall x like argof(t.Comparator, 0), y like argof(t.Comparator, 0) :: t.Comparator(x, y) == 0 && 0 <= t.rank[x] && t.rank[x] < t.size && t.Comparator(x, t.nodes[t.rank[x]].Key) == 0 ==> t.Comparator(y, t.nodes[t.rank[x]].Key) == 0)
 //@ pred RootBlack(t) := t.Root != nil ==> t.Root.color
 //@ pred Inv(t) := ShapeInv(t) && OrderInv(t) && RootBlack(t)
 //@ -- abstract view: the ascending entry sequence (KeyAt(i), ValAt(i)), and the finite map Has/Val it denotes
@@ -345,6 +346,7 @@ package redblacktree
 //@   at before insertCase1#1: tree.rank := \k like key => ite(tree.Comparator(k, key) == 0, pnew, ite(old(tree.rank[k]) >= pnew, old(tree.rank[k]) + 1, old(tree.rank[k])))
 //@   at exit: if old(Has(tree, key)) then pnew := old(tree.rank[key])
 //@   ensures [C01 C02 C17] Inv(tree) && tree.Comparator == old(tree.Comparator)
+//@   ensures owners: forall x like tree.Root :: fresh(x) ==> x.tr == tree || x.tr == nil
 //@   ensures [C01 C02] at: 0 <= pnew && pnew < tree.size && tree.Comparator(key, KeyAt(tree, pnew)) == 0 && ValAt(tree, pnew) == value && tree.rank[key] == pnew
 //@   ensures [C01 C02] replaced: old(Has(tree, key)) ==> tree.size == old(tree.size) && tree.nodes == old(tree.nodes) && tree.rank == old(tree.rank)
 //@     && (forall i :: 0 <= i && i < tree.size && i != pnew ==> KeyAt(tree, i) == old(KeyAt(tree, i)) && ValAt(tree, i) == old(ValAt(tree, i)))
@@ -358,7 +360,7 @@ package redblacktree
 //@     invariant forall x like tree.Root :: !fresh(x) ==> x.Key == old(x.Key) && x.Value == old(x.Value) && x.color == old(x.color) && x.Parent == old(x.Parent) && x.tr == old(x.tr) && x.pos == old(x.pos) && x.a == old(x.a) && x.b == old(x.b)
 //@       && (x != node || loop ==> x.Left == old(x.Left) && x.Right == old(x.Right))
 //@     invariant node != nil && node.tr == tree && !fresh(node)
-//@     invariant forall x like tree.Root :: fresh(x) ==> x.tr != tree
+//@     invariant forall x like tree.Root :: fresh(x) ==> x.tr == nil
 //@     invariant forall i :: 0 <= i && i < node.a ==> tree.Comparator(key, tree.nodes[i].Key) > 0
 //@     invariant forall i :: node.b < i && i < tree.size ==> tree.Comparator(key, tree.nodes[i].Key) < 0
 //@     invariant !loop ==> fresh(insertedNode) && insertedNode != nil && insertedNode.Key == key && insertedNode.Value == value && !insertedNode.color && insertedNode.Left == nil && insertedNode.Right == nil && insertedNode.Parent == nil
@@ -375,6 +377,7 @@ package redblacktree
 //@   modifies tree.Root, tree.size, tree.n, tree.nodes, tree.rank
 //@   modifies each x like tree.Root where x.tr == tree : x.Left, x.Right, x.Parent, x.a, x.b, x.color, x.Key, x.Value, x.pos, x.tr
 //@   ensures [C01 C02 C17] Inv(tree) && tree.Comparator == old(tree.Comparator)
+//@   ensures owners: forall x like tree.Root :: x.tr == old(x.tr) || (old(x.tr) == tree && x.tr == nil)
 //@   ensures [C01 C02] absent: !old(Has(tree, key)) ==> tree.size == old(tree.size) && tree.nodes == old(tree.nodes) && tree.rank == old(tree.rank)
 //@     && (forall i :: 0 <= i && i < tree.size ==> KeyAt(tree, i) == old(KeyAt(tree, i)) && ValAt(tree, i) == old(ValAt(tree, i)))
 //@   ensures [C01 C02] present: old(Has(tree, key)) ==> tree.size == old(tree.size) - 1
